@@ -115,7 +115,7 @@ type StoreCase struct {
 
 func genStore(t *rapid.T) StoreCase {
 	var c StoreCase
-	c.Pieces = rapid.OneOf(rapid.IntRange(1, 4), rapid.IntRange(1, 40)).Draw(t, "pieces")
+	c.Pieces = rapid.OneOf(rapid.IntRange(1, 4), rapid.IntRange(1, 40), rapid.IntRange(1, 40), rapid.SampledFrom([]int{63, 64, 65, 66, 100, 129})).Draw(t, "pieces")
 	c.PL = rapid.Int64Range(1, 32).Draw(t, "pl")
 	c.LastLen = rapid.Int64Range(1, c.PL).Draw(t, "last")
 	mode := rapid.IntRange(0, 5).Draw(t, "mode")
@@ -140,7 +140,7 @@ func seq(n int) []int {
 }
 
 func runStore(c StoreCase) pbt.Verdict {
-	if c.Pieces < 1 || c.Pieces > 64 || c.PL < 1 || c.PL > 64 || c.LastLen < 1 || c.LastLen > c.PL {
+	if c.Pieces < 1 || c.Pieces > 160 || c.PL < 1 || c.PL > 64 || c.LastLen < 1 || c.LastLen > c.PL {
 		return pbt.Verdict{Discard: true}
 	}
 	size := int(c.PL)*(c.Pieces-1) + int(c.LastLen)
@@ -221,6 +221,9 @@ func runStore(c StoreCase) pbt.Verdict {
 		classes = append(classes, "pieces:all-complete(cache)")
 	default:
 		classes = append(classes, "pieces:partial")
+	}
+	if c.Pieces > 64 {
+		classes = append(classes, "pieces:>64")
 	}
 
 	// TorrentMeta parsed back from disk.
